@@ -2,7 +2,6 @@ use std::str::FromStr;
 
 use std::cmp::Ordering;
 use std::hash::{Hash, Hasher};
-use std::ops::{Add};
 
 use itertools::Itertools;
 
@@ -398,9 +397,10 @@ impl ValueType {
                     let hours = i64::from_str(parts[0]).ok()?;
                     let minutes = i64::from_str(parts[1]).ok()?;
                     let seconds = i64::from_str(parts[2]).ok()?;
-                    let duration = IntervalType::hours(hours)
-                        .add(IntervalType::minutes(minutes))
-                        .add(IntervalType::seconds(seconds));
+                    // Parts too large for an interval are not an interval (instead of a panic)
+                    let duration = IntervalType::try_hours(hours)?
+                        .checked_add(&IntervalType::try_minutes(minutes)?)?
+                        .checked_add(&IntervalType::try_seconds(seconds)?)?;
                     Some(Value::Interval(duration))
                 } else {
                     None
